@@ -19,6 +19,9 @@ CONSTANTS
   EmitDyn = FALSE
   MaxHist = 5
   MaxReorders = 2
+  NameOrder <- NameOrderA
+  BuildCfgs <- BuildCfgsA
+  IntegrCfgs <- IntegrCfgsNone
   UnitCfgs <- UnitsNone
   Times <- TimesA
   Tol <- TolA
